@@ -1589,6 +1589,66 @@ def _idset_names(loop):
     return sorted(out)
 
 
+def _fragment_hosts(mod, fnode, depth=2):
+    """`fnode` and the module-level functions it calls by plain name (transitively, `depth` levels), in call order."""
+    import ast
+    out, seen, level = [fnode], {fnode.name}, [fnode]
+    for _ in range(depth):
+        nxt = []
+        for f in level:
+            for c in ast.walk(f):
+                if isinstance(c, ast.Call) and isinstance(c.func, ast.Name) and c.func.id not in seen and c.func.id in mod.functions:
+                    seen.add(c.func.id)
+                    nxt.append(mod.functions[c.func.id])
+        out += nxt
+        level = nxt
+    return out
+
+
+def _state_threaded(caller, helper, objs, flags):
+    """A loop that lives in `helper` keeps the meaning it had inline only if the state it works on is the caller's: the
+    objects `objs` (mutated in place) and the scalars `flags` (updated by assignment) must be parameters of the helper, every
+    call passes plain names, and every flag comes back: the helper returns it on every path and each call site stores the
+    result in the very name it passed.  Returns None when that is so, else the reason (the caller reports `unknown`)."""
+    import ast
+    a = helper.args
+    if a.vararg or a.kwarg:
+        return "star parameters"
+    params = [x.arg for x in a.posonlyargs + a.args + a.kwonlyargs]
+    for n in list(objs) + list(flags):
+        if n not in params:
+            return f"{n} is not a parameter"
+    if len(flags) > 1:
+        return "more than one flag"
+    own = [x for x in ast.walk(helper) if isinstance(x, (ast.FunctionDef, ast.AsyncFunctionDef, ast.Lambda)) and x is not helper]
+    inner = {id(y) for f in own for y in ast.walk(f)}
+    rets = [x for x in ast.walk(helper) if isinstance(x, ast.Return) and id(x) not in inner]
+    if any(isinstance(x, (ast.Yield, ast.YieldFrom)) for x in ast.walk(helper)):
+        return "generator"
+    if flags:
+        if not rets or not isinstance(helper.body[-1], ast.Return):
+            return "flag not returned at the end"
+        if any(not (isinstance(r.value, ast.Name) and r.value.id == flags[0]) for r in rets):
+            return "a return does not give the flag back"
+    calls = [c for c in ast.walk(caller) if isinstance(c, ast.Call) and isinstance(c.func, ast.Name) and c.func.id == helper.name]
+    if not calls:
+        return "not called directly"
+    stored = {id(s.value): s for s in ast.walk(caller) if isinstance(s, ast.Assign) and len(s.targets) == 1 and isinstance(s.targets[0], ast.Name)}
+    for c in calls:
+        if any(isinstance(x, ast.Starred) for x in c.args) or any(k.arg is None for k in c.keywords):
+            return "star arguments"
+        bound = dict(zip([x.arg for x in a.posonlyargs + a.args], c.args))
+        bound.update({k.arg: k.value for k in c.keywords})
+        for n in list(objs) + list(flags):
+            if not isinstance(bound.get(n), ast.Name):
+                return f"argument for {n} is not a plain name"
+        for fl in flags:
+            s = stored.get(id(c))
+            if s is None or s.targets[0].id != bound[fl].id:
+                return "flag result not stored back into the name that was passed"
+    return None
+
+
 def fragment_obligations(repo, tier):
     from pyvc import loader
     from pyvc.contracts import Registry
@@ -1830,22 +1890,31 @@ def odp_fragment(repo, reg, uni, pre):
     fnode = mod.functions.get(fname)
     if fnode is None:
         return {"obligations": _unknown(pre, ODP_BLOCK_IDS, "function not found", fq)}
-    loops = _iter_p_loops(fnode)
-    loops = [(n, st) for n, st in loops if not any(m is not n and m in list(ast.walk(n)) for m, _s in loops)]      # innermost only
+    # the paragraph loops of the slide assembly: in the function itself or in a module-level helper it calls (the loop of one
+    # text box / of the notes extracted into a function of its own is the same fragment, executed in the helper's frame)
+    loops = []
+    for host in _fragment_hosts(mod, fnode):
+        loops += [(n, st, host) for n, st in _iter_p_loops(host)]
+    loops = [(n, st, h) for n, st, h in loops if not any(m is not n and m in list(ast.walk(n)) for m, _s, _h in loops)]      # innermost only
     owners = lambda stores: {x.split(".")[0] for x in stores if "." in x and x.split(".", 1)[1] in ("body_text", "other_text", "title", "notes")}
-    text_loops = [(n, owners(st)) for n, st in loops if any(x.endswith((".body_text", ".other_text", ".title")) for x in st)]
-    note_loops = [(n, owners(st)) for n, st in loops if any(x.endswith(".notes") for x in st) and not any(x.endswith((".body_text", ".other_text", ".title")) for x in st)]
-    if len(text_loops) != 1 or len(note_loops) != 1 or len(text_loops[0][1]) != 1:
+    text_loops = [(n, owners(st), h) for n, st, h in loops if any(x.endswith((".body_text", ".other_text", ".title")) for x in st)]
+    note_loops = [(n, owners(st), h) for n, st, h in loops if any(x.endswith(".notes") for x in st) and not any(x.endswith((".body_text", ".other_text", ".title")) for x in st)]
+    if len(text_loops) != 1 or len(note_loops) != 1 or len(text_loops[0][1]) != 1 or len(note_loops[0][1]) != 1:
         return {"obligations": _unknown(pre, ODP_BLOCK_IDS, f"{len(text_loops)} text loop(s), {len(note_loops)} notes loop(s)", fq)}
-    slide_name = next(iter(text_loops[0][1]))
     obls = []
-    for kind, loop in (("slide-text", text_loops[0][0]), ("speaker-notes", note_loops[0][0])):
+    for kind, (loop, own, host) in (("slide-text", text_loops[0]), ("speaker-notes", note_loops[0])):
+        slide_name = next(iter(own))
         labels = [l for l in ODP_BLOCK_IDS if l.startswith(kind + ".")]
         flags = _flag_names(loop)
         if kind == "slide-text" and len(flags) != 1:
             obls += _unknown(pre, labels, f"title flag not recognised ({flags})", fq)
             continue
         flag_name = flags[0] if flags else None
+        if host is not fnode:
+            why = _state_threaded(fnode, host, [slide_name], [flag_name] if flag_name else [])
+            if why:
+                obls += _unknown(pre, labels, f"paragraph loop in helper {host.name}: {why}", fq)
+                continue
         ex = EXECUTOR(mod, reg, uni)
         ex.oid_prefix = "C02/odp_extractor.py::_extract_slide"
         st = State()
@@ -1865,9 +1934,9 @@ def odp_fragment(repo, reg, uni, pre):
             env[flag_name] = VBool(found)
         for nm in _idset_names(loop):           # the set of identities the enclosing code computed (comment paragraphs)
             env.setdefault(nm, ids)
-        st.frames = [Frame(env, None, fnode)]
+        st.frames = [Frame(env, None, host)]
         st.assume(found == (title != lit("")))
-        ex.cur_fn_stack.append(fnode)
+        ex.cur_fn_stack.append(host)
         ex.sinks.append([])
         try:
             outs = ex.exec_block(loop.body, st)
